@@ -237,7 +237,7 @@ func whCoq(cs *whCase) string {
 
 var whRepos = []string{"r", "r2", "r-x", "repo", "repo2"}
 var whLabelNames = []string{"v1", "v1.0.0", "1.2", "v1-rc", "latest", "l", "l-2", "l_3", "v10", "0.0.1-beta", "rel"}
-var whHostile = []string{"a/b", "x y", "dot.ted", "", "label.yaml", "é1"}
+var whHostile = []string{"a/b", "x y", "dot.ted", "", "label.yaml", "é1", "/x", "../x", ".", "/", "-v", "_", "v1/"}
 
 func whTree(r *gen.Rand, n int) []world.File {
 	var fs []world.File
@@ -264,7 +264,8 @@ func whPrologue(r *gen.Rand, maxBundles int) ([]whStep, []string, map[string][]i
 		steps = append(steps, whStep{Op: "create", Repo: repo, Bundle: -1})
 	}
 	for _, repo := range repos {
-		for j := 0; j < r.Intn(maxBundles+1); j++ {
+		nbr := r.Intn(maxBundles + 1)
+		for j := 0; j < nbr; j++ {
 			if r.Chance(1, 5) {
 				steps = append(steps, whStep{Op: "leftover", Repo: repo, Files: whTree(r, r.Range(1, 3)), Bundle: -1, Older: r.Chance(1, 3)})
 				continue
@@ -338,6 +339,13 @@ func whGen(prop string, r *gen.Rand, first bool) *whCase {
 			steps = append(steps, whStep{Op: "rename", Repo: target, Repo2: to, Bundle: -1, Judge: true})
 		default:
 			paths := []string{"common.txt", "d0/f0", "d1/f1", "nothing/here"}
+			for j := 0; j < r.Intn(3); j++ { // the same paths in several bundles
+				fs := append(whTree(r, r.Range(1, 3)), world.File{Name: "common.txt", Data: []byte("shared")})
+				if fs[len(fs)-2].Name == "common.txt" {
+					fs = fs[:len(fs)-1]
+				}
+				steps = append(steps, whStep{Op: "upload", Repo: target, Files: fs, Bundle: -1})
+			}
 			steps = append(steps, whStep{Op: "delentries", Repo: target, Paths: paths[:r.Range(1, 4)], Bundle: -1, Judge: true})
 		}
 		for _, repo := range repos {
@@ -345,13 +353,36 @@ func whGen(prop string, r *gen.Rand, first bool) *whCase {
 		}
 		cs.Steps = steps
 	case "C10":
-		steps, repos, _ := whPrologue(r, 7)
+		steps, repos, byRepo := whPrologue(r, 7)
 		target := repos[r.Intn(len(repos))]
+		if bs := byRepo[target]; len(bs) > 0 { // several labels (semver and not) on one old bundle; a label on a bundle that does not exist
+			old := bs[r.Intn((len(bs)+1)/2)]
+			for j := 0; j < r.Intn(4); j++ {
+				steps = append(steps, whStep{Op: "setlabel", Repo: target, Name: whLabelNames[r.Intn(len(whLabelNames))], Bundle: old})
+			}
+		}
+		if r.Chance(1, 3) {
+			steps = append(steps, whStep{Op: "setlabel", Repo: target, Name: []string{"dangling", "0.9.0"}[r.Intn(2)], Bundle: -1})
+		}
 		if r.Chance(1, 2) { // a leftover newer than every committed bundle
 			steps = append(steps, whStep{Op: "leftover", Repo: target, Files: whTree(r, 2), Bundle: -1})
 		}
 		steps = append(steps, whStep{Op: "latest", Repo: target, Bundle: -1, Judge: true})
-		steps = append(steps, whStep{Op: "squash", Repo: target, N: r.Range(1, 5), Mode: []string{"none", "all", "semver"}[r.Intn(3)], Bundle: -1, Judge: true})
+		retain := r.Range(1, 5)
+		if cnt := len(byRepo[target]); r.Chance(2, 3) && cnt > 1 { // around the number of committed bundles
+			retain = cnt - 2 + r.Intn(3)
+			if retain < 1 {
+				retain = 1
+			}
+		}
+		mode := []string{"none", "all", "semver"}[r.Intn(3)]
+		if bs := byRepo[target]; len(bs) > 1 && r.Chance(1, 3) { // an old bundle with a semver label and another label sorting after it
+			pair := [][2]string{{"1.2", "latest"}, {"v1.0.0", "v1-rc"}, {"0.0.1-beta", "l"}, {"v1.0.0", "latest"}}[r.Intn(4)]
+			steps = append(steps, whStep{Op: "setlabel", Repo: target, Name: pair[0], Bundle: bs[0]}, whStep{Op: "setlabel", Repo: target, Name: pair[1], Bundle: bs[0]})
+			mode = "semver"
+			retain = r.Range(1, len(bs)-1)
+		}
+		steps = append(steps, whStep{Op: "squash", Repo: target, N: retain, Mode: mode, Bundle: -1, Judge: true})
 		steps = append(steps, whStep{Op: "latest", Repo: target, Bundle: -1, Judge: true})
 		for _, repo := range repos {
 			steps = append(steps, whStep{Op: "listbundles", Repo: repo, Bundle: -1}, whStep{Op: "listlabels", Repo: repo, Bundle: -1})
